@@ -229,11 +229,11 @@ def codes(s):
     return [ord(c) for c in s]
 
 
-def run_driver(lines, timeout=1800, shards=None):
+def run_driver(lines, timeout=1800, shards=None, raw=False):
     """feed request lines to the extracted model; -> list of parsed responses"""
     if not lines:
         return []
-    shards = shards or (1 if len(lines) < 2000 else NCPU)
+    shards = shards or (1 if len(lines) < 200 else NCPU)
     chunks = [lines[i::shards] for i in range(shards)]
     procs = []
     for ch in chunks:
@@ -257,7 +257,7 @@ def run_driver(lines, timeout=1800, shards=None):
         if len(got) != len(chunks[i]):
             raise RuntimeError(f'driver returned {len(got)} lines for {len(chunks[i])} requests')
         for j, x in enumerate(got):
-            res[i + j * shards] = parse_sx(x)
+            res[i + j * shards] = x if raw else parse_sx(x)
     return res
 
 
@@ -300,6 +300,7 @@ class Run:
         self.traces = 0
         self.level = 'proof'
         self.extra = {}
+        self.verbose = bool(os.environ.get('VERIF_VERBOSE'))
 
     # ---- proofs ----
     def build(self):
@@ -342,7 +343,7 @@ class Run:
     def disagree(self, stream, case, impl, model):
         s = self.stream(stream)
         s['model_vs_impl_disagreements'] += 1
-        if s['model_vs_impl_disagreements'] <= 5:
+        if s['model_vs_impl_disagreements'] <= 5 or (s['model_vs_impl_disagreements'] <= 400 and self.verbose):
             self.broken.append({'kind': 'correspondence', 'name': f'model-vs-implementation:{stream}',
                                 'detail': {'case': case, 'implementation': impl, 'model': model}})
 
@@ -411,7 +412,7 @@ class Run:
                 'traces_validated_against_impl': self.traces,
                 'streams': self.streams,
                 'translated_fragments': self.fragments,
-                'broken': self.broken[:10],
+                'broken': self.broken[:400 if self.verbose else 10],
                 'known_findings_seen': sorted(seen_known),
                 'repo': repo_state(),
                 **self.extra,
